@@ -215,13 +215,27 @@ func (pipeline *Pipeline) LoadSchemas(ctx context.Context) (ast.Schemas, error) 
 		return nil, err
 	}
 
+	// resolving a reference that leads back to itself never ends
+	if cycle := allSchemas.AliasCycle(); cycle != nil {
+		return nil, fmt.Errorf("objects are defined as aliases of each other: %s", strings.Join(cycle, " -> "))
+	}
+
 	// Apply common and final compiler passes
 	commonPasses, err := pipeline.commonPasses()
 	if err != nil {
 		return nil, err
 	}
 
-	return commonPasses.Process(allSchemas)
+	allSchemas, err = commonPasses.Process(allSchemas)
+	if err != nil {
+		return nil, err
+	}
+
+	if cycle := ast.Schemas(allSchemas).AliasCycle(); cycle != nil {
+		return nil, fmt.Errorf("objects are defined as aliases of each other: %s", strings.Join(cycle, " -> "))
+	}
+
+	return allSchemas, nil
 }
 
 func (pipeline *Pipeline) OutputLanguages() (languages.Languages, error) {
